@@ -20,12 +20,16 @@
 #ifdef SIM_ASAN
 #include <sanitizer/common_interface_defs.h>
 #endif
+#ifdef SIM_PLAIN
+#include <valgrind/valgrind.h>
+#include <valgrind/memcheck.h>
+#endif
 
 namespace sim
 {
 bool g_asan_flavour =
-#ifdef SIM_ASAN
-    true;
+#if defined(SIM_ASAN) || defined(SIM_PLAIN)
+    true; // coarse flavours: no access-level seam, the sanitizer / valgrind is the detector
 #else
     false;
 #endif
@@ -381,7 +385,7 @@ static bool heap_release(void *p, AllocKind how, const char *how_name)
 
 void *buf_alloc(size_t bytes, const char *name, bool garbage, uint64_t gseed)
 {
-#ifdef SIM_ASAN
+#if defined(SIM_ASAN) || defined(SIM_PLAIN)
     (void)name;
     unsigned char *p = (unsigned char *)malloc(bytes ? bytes : 1);
     if (garbage)
@@ -395,6 +399,11 @@ void *buf_alloc(size_t bytes, const char *name, bool garbage, uint64_t gseed)
     }
     else
         memset(p, 0, bytes);
+#ifdef SIM_PLAIN
+    // under valgrind: deterministic bytes, but "undefined" as far as memcheck is concerned
+    if (garbage && bytes)
+        VALGRIND_MAKE_MEM_UNDEFINED(p, bytes);
+#endif
     return p;
 #else
     return arena_block(bytes, AK_HARNESS, name, garbage, gseed);
@@ -402,7 +411,7 @@ void *buf_alloc(size_t bytes, const char *name, bool garbage, uint64_t gseed)
 }
 void buf_free(void *p)
 {
-#ifdef SIM_ASAN
+#if defined(SIM_ASAN) || defined(SIM_PLAIN)
     free(p);
 #else
     std::vector<std::string> saved;
@@ -413,7 +422,7 @@ void buf_free(void *p)
 }
 bool buf_check(const void *p, std::string &what)
 {
-#ifdef SIM_ASAN
+#if defined(SIM_ASAN) || defined(SIM_PLAIN)
     (void)p;
     (void)what;
     return true; // ASan's redzones report the access itself
@@ -907,7 +916,11 @@ static void prepare_fiber(Member *m)
     // the part of the stack a member normally uses starts from a defined state: zero in the clean
     // configuration, seeded garbage with dirty_heap (an uninitialised stack read then shows as a
     // difference to the reference run instead of depending on what the process ran before)
+#ifdef SIM_PLAIN
+    VALGRIND_MAKE_MEM_UNDEFINED(m->stack_lo, STACK_BYTES); // addressable again, contents undefined for memcheck
+#else
     memset((char *)top - 16384, g_cfg.dirty_heap ? (int)(0x80 | (g_cfg.garbage_seed & 0x7f)) : 0, 16384);
+#endif
     uint64_t *sp = (uint64_t *)top;
     *--sp = 0;                                    // padding: after `ret` rsp % 16 == 8, as after a call
     *--sp = 0;                                    // fake return address of the trampoline (never used)
@@ -1144,6 +1157,10 @@ void init()
         g_members[i].stack_lo = g_stack_pool + per * i + GUARD_BYTES;
     }
     mprotect(g_stack_pool + per * MAXT, GUARD_BYTES, PROT_NONE);
+#ifdef SIM_PLAIN
+    for (int i = 0; i < MAXT; i++)
+        VALGRIND_STACK_REGISTER(g_members[i].stack_lo, g_members[i].stack_lo + STACK_BYTES);
+#endif
     shadow_alloc(1u << 16);
     arena_init();
 }
@@ -1465,7 +1482,7 @@ extern "C"
         return memset(d, c, n);
     }
 
-#ifndef SIM_ASAN
+#if !defined(SIM_ASAN) && !defined(SIM_PLAIN)
     // ---- allocation of the repo objects (renamed by objcopy)
     void *simw_malloc(size_t n) { return heap_alloc(n, AK_MALLOC); }
     void *simw_calloc(size_t a, size_t b)
